@@ -35,6 +35,7 @@ type Model struct {
 	NAlive int
 	Regs   []*RegFilter // by slot; nil = free slot
 	Epoch  int          // number of resets so far
+	NStale int          // number of filters unregistered so far
 	// Creations / Removals since the last reset (C02).
 	Creations, Removals int
 	// Res: which of the NumRes resource types currently has a value.
